@@ -32,7 +32,10 @@ LEVEL_TEXT = ('Theorems (Props/C09.v): the reference decoder accepts exactly the
               'C09_one3d_single_step_refuted (vm_compute witness = finding met-single-step, region 11). Tie H: constructor OD of Corr/C09.v. '
               'TEMPERATURE and HEIGHT/PRESSURE (Model/TempHp.v, Proofs/TempHpProofs.v; layered record files over the One3d codec; both Memmap readers hand-modelled incl. the for-loop fall-through, the lazy reshapes and the marker check): C09_temperature_dec_enc, C09_heightpres_dec_enc, C09_temperature_reader_presents_content, '
               'C09_heightpres_reader_presents_content, C09_temperature_single_step_refuted, C09_heightpres_single_step_refuted (single-step files raise: region 11). '
-              'Tie H: constructors TD / HD of Corr/C09.v.')
+              'Tie H: constructors TD / HD of Corr/C09.v. '
+              'WIND (Model/Wind.v, Proofs/WindProofs.v; Memmap reader hand-modelled incl. the RecordFile walk of its __init__, with a three-valued result read / raise / never returns): C09_wind_dec_enc, C09_wind_reader_presents_content_partial (two or more cells, 12 * steps < body + 4), '
+              'C09_wind_reader_refuted (5-step 2x1x1 file raises = new finding wind-long-file-step-miscount, region 19; 1x1 file never returns = region 12). '
+              'Tie H: constructor WD.')
 LEVEL_NOTE = ('Trusted: Coq kernel+vm_compute, py2coq, the harness. CAMx met formats, landuse and bpch: record framing proved generically, layouts compared by '
               'correspondence only (see evidence distribution).')
 TECHNIQUE = 'Coq proof (codec round trip, framing soundness, reader-model refinement) + translation from source + differential correspondence'
@@ -172,6 +175,17 @@ def gen(rng, n, tier):  # noqa: F811
             c = M.gen_lb_thin(rng, tier)
             out.append(dict(kind='lbdy-thin', content=c, write=True))
     # cloud/rain files, 3-field (< 4.3) and 5-field layouts, against the independent reference encoder/decoder
+    # wind files with many steps on tiny grids: the Memmap reader's step count runs ahead of the file (region 19)
+    for i in range(max(2, n // 60)):
+        c = M.gen_met(rng, fmt='wind', tier=tier, rollover=0.0, min_steps=3)
+        c['nx'], c['ny'], c['nz'] = rng.choice([(2, 1, 1), (1, 2, 1), (3, 1, 1), (2, 1, 2)])
+        base = c['steps'][0]
+        c['steps'] = []
+        for t in range(rng.randint(4, 9)):
+            d, h = L.yyjjj_add_hours(base['date'], base['hhmm'] // 100, t)
+            c['steps'].append(dict(date=d, hhmm=h * 100,
+                                   fields={v: [[L.finite_word(rng) for _ in range(c['nx'] * c['ny'])] for _ in range(c['nz'])] for v in ('U', 'V')}))
+        out.append(dict(kind='met-wind-long', content=c, write=True))
     for i in range(max(2, n // 12)):
         c = M.gen_cloud_rain(rng, tier)
         out.append(dict(kind='met-cloud_rain', content=c, write=True))
